@@ -420,6 +420,37 @@ PROPERTIES["C09"]["explanation"] += " (PAIR) the compiler's scope stack (locals.
 PROPERTIES["C17"]["rules"] += [("DEDUP", lambda ctx: rule_dedup(ctx.lib))]
 PROPERTIES["C17"]["explanation"] += " (DEDUP) Resolver::inlining_pass imports a module only under the negative membership test on imported_modules and records it between the successful import() and the recursive call, so re-imports and cycles change nothing."
 
+from listview import rule_listview  # noqa: E402
+
+PROPERTIES["C18"]["rules"] += [("LISTVIEW", lambda ctx: rule_listview(ctx.lib))]
+PROPERTIES["C18"]["explanation"] += " (LISTVIEW) A necessary condition of the value clause: list.rs keeps `view.end == alloc.len()`; every length-changing call on the deque obtained from make_mut happens either where the view is known to be None, or where the view's end is bound and adjusted in the same block — never in a branch where the view may still be Some."
+
+from stridx import rule_stridx  # noqa: E402
+
+
+def stridx_control(ctx):
+    import controls
+    from core import RuleOut
+    from hirlib import Crate
+
+    c = Crate(controls.load())
+    probe = rule_stridx(c, dirs=("lib.rs",), min_bodies=0)
+    out = RuleOut("STRIDX.control", "positive control for a rule whose expected count on numbat is zero")
+    if probe.count("violation") == 1:
+        out.ok("control", "engine/nbfacts/controls/src/lib.rs", 1, "matcher fired on the planted `&s[a..b]`")
+    else:
+        out.error("positive control failed: STRIDX reported %d sites in the control crate" % probe.count("violation"))
+    return out
+
+
+PROPERTIES["C08"]["rules"] += [("STRIDX", lambda ctx: rule_stridx(ctx.lib)), ("STRIDX.control", stridx_control)]
+PROPERTIES["C08"]["explanation"] += " (STRIDX) no native function slices a string with panicking `[range]` indexing (run-time byte offsets); the fallible str::get is the accepted idiom."
+
+from esctab import rule_esctab  # noqa: E402
+
+PROPERTIES["C15"]["rules"] += [("ESCTAB", lambda ctx: rule_esctab(ctx.lib))]
+PROPERTIES["C15"]["explanation"] += " (ESCTAB) The printer's string escaper and the parser's un-escaper are inverse tables: every emitted escape reads back as the same character and every character the parser treats specially is escaped."
+
 NOT_APPLICABLE = {
     "C03": "numerical agreement of conversion factors over 500 units is a statement about run-time values; no structural clause is a necessary condition that is not already covered under C04/C11/C12 (static analysis cannot bound the arithmetic)",
     "C14": "a statement about the decimal rendering of every f64 under every format setting; the code delegates to pretty_dtoa/num_format and no structural clause of Number::pretty_print_with_dtoa_config can be decided without evaluating it",
